@@ -23,7 +23,9 @@
 (***************************************************************************)
 EXTENDS Integers, Sequences, FiniteSets, TLC
 
-CONSTANTS RSize, NInst, NExtOut, NRemap, BigGraph
+CONSTANTS RSize, NInst, NExtOut, NRemap, BigGraph,
+          ForkJoin,  \* TRUE (with NInst = 4): only graphs of the shape  d(c(a(x)), b(y)) : b's result is live while c runs
+          FragSet    \* the fragments a graph is built from (a subset of the library: which register names meet on a processor)
 
 Mod == 2 ^ RSize
 \* the fragment library: name -> [nin, nout]; the bodies are in the harness (c06.go), the meaning here
@@ -34,7 +36,9 @@ Lib == [incf |-> [nin |-> 1, nout |-> 1],      \* r0 -> r0       x + 1
         splf |-> [nin |-> 1, nout |-> 2],      \* r0 -> r0:r1    (x, x + 1)
         swpf |-> [nin |-> 1, nout |-> 1],      \* r1 -> r0       x - 1     (input and output on different registers)
         dczf |-> [nin |-> 1, nout |-> 1],      \* r0 -> r0       x = 0 ? 0 : x - 1   (a label and a jump inside)
-        sbff |-> [nin |-> 2, nout |-> 2]]      \* r1:r0 -> r2:r0 (x + y, y)   (ports in an unusual register order)
+        sbff |-> [nin |-> 2, nout |-> 2],      \* r1:r0 -> r2:r0 (x + y, y)   (ports in an unusual register order)
+        sclf |-> [nin |-> 1, nout |-> 1],      \* r0 -> r0       x + 1     (scratch r2 only ever written as a last operand)
+        gapf |-> [nin |-> 1, nout |-> 1]]      \* r0 -> r0       2x        (scratch r3: the register names used have a hole at r2)
 Frags == DOMAIN Lib
 Sem(f, in) ==
   CASE f = "incf" -> <<(in[1] + 1) % Mod>>
@@ -45,10 +49,12 @@ Sem(f, in) ==
     [] f = "swpf" -> <<(in[1] + Mod - 1) % Mod>>
     [] f = "dczf" -> <<IF in[1] = 0 THEN 0 ELSE in[1] - 1>>
     [] f = "sbff" -> <<(in[1] + in[2]) % Mod, in[2]>>
+    [] f = "sclf" -> <<(in[1] + 1) % Mod>>
+    [] f = "gapf" -> <<(2 * in[1]) % Mod>>
 
 NExtIn == 2
 VecSeq == <<<<5, 7>>, <<0, Mod - 1>>, <<Mod - 56, 100>>>>
-FragSeq == <<"incf", "dblf", "addf", "trif", "splf", "swpf", "dczf", "sbff">>
+FragSeq == <<"incf", "dblf", "addf", "trif", "splf", "swpf", "dczf", "sbff", "sclf", "gapf">>
 
 VARIABLES phase, inst, outs, group, perm, result, remaps
 vars == <<phase, inst, outs, group, perm, result, remaps>>
@@ -109,11 +115,16 @@ Remap(g, p) ==
 
 \* (IF-structured so that TLC -simulate draws the fragment kinds with equal odds, see BasmSem)
 Next ==
-  \E w \in 1 .. 8 :
+  \E w \in 1 .. 10 :
     IF phase = "build" /\ Len(inst) < NInst
     THEN LET n == Len(inst) + 1
              f == FragSeq[w]
-         IN  \E src \in [1 .. Lib[f].nin -> Sources(n)] : AddInst(f, src)
+         IN  /\ f \in FragSet
+             /\ IF ForkJoin
+                THEN /\ Lib[f].nin = (IF n = 4 THEN 2 ELSE 1) /\ (n < 4 => Lib[f].nout = 1)
+                     /\ \E src \in (CASE n = 1 -> {<<Ext(0)>>} [] n = 2 -> {<<Ext(1)>>} [] n = 3 -> {<<Port(1, 0)>>}
+                                       [] OTHER -> {<<Port(3, 0), Port(2, 0)>>, <<Port(2, 0), Port(3, 0)>>}) : AddInst(f, src)
+                ELSE \E src \in [1 .. Lib[f].nin -> Sources(n)] : AddInst(f, src)
     ELSE IF phase = "build" /\ Len(outs) < NExtOut
     THEN w = 1 /\ \E s \in PortSources(NInst + 1) : AddOut(s)
     ELSE IF phase = "build"
